@@ -127,7 +127,7 @@ inline History gen_code_case(const PropSpec& ps, Chooser& ch) {
   History h;
   GenOpts small; small.max_k_ldpc = 40; small.max_n_ldpc = 80; small.max_n_rs = 40; small.big_L = false;
   uint32_t npre = ch.next() % 4;
-  for (uint32_t i = 0; i < npre; i++) h.scripts.push_back(ch.coin(1, 2) ? gen_encoder_script(ch, small) : gen_decoder_script(ch, small));
+  for (uint32_t i = 0; i < npre; i++) { h.scripts.push_back(ch.coin(1, 2) ? gen_encoder_script(ch, small) : gen_decoder_script(ch, small)); if (ch.coin(1, 3)) h.scripts.back().verb = ch.pick<uint32_t>({2, 1, 2}); }
   Config c = gen_config(ch, ps.go);
   // grid-flavoured k values now and then
   if (ch.coin(1, 4)) {
@@ -171,6 +171,12 @@ inline History gen_lastnull_case(const PropSpec& ps, Chooser& ch) {
   History h;
   Config c = gen_config(ch, ps.go);
   if (c.payload == PAY_ZERO) c.payload = PAY_RANDOM;
+  // boundary class: low-rate codes where the number of extra entries (about 2(n-k) - N1 k) is a multiple of 256
+  if (ch.next() % 12 == 11) {
+    c.N1 = ch.pick<uint32_t>({4, 6, 8, 10}); c.k = ch.range(1, 40); uint32_t m256 = ch.range(1, 2);
+    c.r = (256 * m256 + c.N1 * c.k) / 2 + ch.pick<uint32_t>({0, 0, 0, 1});
+    c.L = ch.range(1, 9);
+  }
   Script e; e.cfg = c; e.role = ROLE_ENC;
   { Step sp; sp.op = OP_SETPARAMS; e.steps.push_back(sp); }
   for (uint32_t i = 0; i < c.r; i++) { Step b; b.op = OP_BUILD; b.esi = c.k + i; b.flag = ch.coin(1, 8); e.steps.push_back(b); }
@@ -265,6 +271,10 @@ inline History gen_param_case(const PropSpec& ps, Chooser& ch) {
   // accepted configurations with tens of thousands of symbols cost ~0.3 s each under ASan: keep one in eight
   if (cfg_valid(c) == 1 && (uint64_t)c.k + c.r > 3000 && !ch.coin(1, 8)) { c.k = ch.pick<uint32_t>({1, 2, 3, 10}); c.r = std::max<uint32_t>(c.N1, ch.pick<uint32_t>({3, 4, 10, 20})); if (c.N1 > c.r) c.N1 = c.r; if (c.N1 < 3) { c.N1 = 3; c.r = std::max<uint32_t>(c.r, 3); } }
   Script s = param_script(c, role);
+  if (c.codec == CODEC_RSM && ch.coin(1, 3)) {   // field size announced beforehand through the control parameter, maybe another one
+    Step sc; sc.op = OP_SETCTRL; sc.flag = ch.pick<uint32_t>({8, 4, 4, 8, 0, 5, 16});
+    s.steps.insert(s.steps.begin(), sc);
+  }
   int valid = cfg_valid(c);
   uint64_t n = (uint64_t)c.k + c.r;
   if (valid == 1 && n <= 3000 && n * (uint64_t)c.L <= (1u << 24)) add_cycle(ch, s, ch.coin(1, 2));
@@ -534,7 +544,7 @@ inline History minimise_any(History h, const PropSpec& ps, const std::string& si
 inline History p2d_history(uint32_t k, uint32_t r, uint64_t mask, int api, int order, uint64_t oseed, bool finish, int payload, uint64_t pseed, uint32_t L, int cut) {
   History h; Script s;
   s.cfg.codec = CODEC_P2D; s.cfg.k = k; s.cfg.r = r; s.cfg.L = L; s.cfg.payload = payload; s.cfg.pseed = pseed;
-  s.role = ROLE_DEC; s.cbmode = 1;
+  s.role = ((mask ^ pseed) % 5 == 0) ? ROLE_BOTH : ROLE_DEC; s.cbmode = 1;
   Step sp; sp.op = OP_SETPARAMS; s.steps.push_back(sp);
   std::vector<uint32_t> rec;
   for (uint32_t e = 0; e < k + r; e++) if (mask & (1ull << e)) rec.push_back(e);
